@@ -380,7 +380,8 @@ impl<'a> QGen<'a> {
 
     fn sp(&self, rng: &mut Rng) -> &'static str {
         if self.fancy && rng.chance(1, 10) {
-            " "
+            // RFC 9535 blank space: SP, HTAB, LF, CR
+            *rng.pick(&[" ", " ", " ", "\t", "\n", "\r\n", "  "])
         } else {
             ""
         }
@@ -498,7 +499,7 @@ impl<'a> QGen<'a> {
                     // integral values written as floats, around 2^53 and 2^31
                     rng.pick(&["9007199254740992.0", "9007199254740993", "9007199254740992", "2147483648.0", "1e300", "-9007199254740992.0", "9.007199254740992e15"]).to_string()
                 } else {
-                    rng.pick(&["1.0", "1.5", "1e2", "-0.5", "2.5"]).to_string()
+                    rng.pick(&["1.0", "1.5", "1e2", "-0.5", "2.5", "-0", "-0.0", "1.0e-2", "1E2", "0.1e1", "1e-0", "100e-2"]).to_string()
                 }
             }
             2 => {
